@@ -237,9 +237,15 @@ def run(ctx: Ctx) -> int:
             if isinstance(tg, ast.Name) and tg.id == "clash_mark":
                 mark = const_str(s.value)
             if isinstance(tg, ast.Name) and tg.id == "clash_names":
-                cn_after = seen_cls and "dir(Namespace)" in ast.unparse(s.value)
+                v = s.value
+                # every attribute name of the class clashes: set(dir(Namespace)) or an unfiltered comprehension over it
+                whole = isinstance(v, ast.Call) and call_leaf(v) in ("set", "frozenset") and len(v.args) == 1 and ast.unparse(v.args[0]) == "dir(Namespace)"
+                if isinstance(v, (ast.SetComp, ast.ListComp, ast.GeneratorExp)) and len(v.generators) == 1:
+                    gn = v.generators[0]
+                    whole = ast.unparse(gn.iter) == "dir(Namespace)" and not gn.ifs and isinstance(v.elt, ast.Name) and isinstance(gn.target, ast.Name) and v.elt.id == gn.target.id
+                cn_after = seen_cls and whole
     ok = mark is not None and len(mark) == 1 and not (mark.isidentifier() or mark.isalnum() or mark == "_") and cn_after
-    ctx.oblige("C11.a", ok, None, "the mark is a non-identifier character and clash_names = dir(Namespace) is computed after the class body: a marked name is never in clash_names, so marking is idempotent" if ok else "clash mark / clash_names facts changed (idempotence of add_clash_mark not guaranteed)", site="_namespace:clash_mark", construct="mark idempotent", function="_namespace:<module>")
+    ctx.oblige("C11.a", ok, None, "the mark is a non-identifier character and clash_names = dir(Namespace) is computed after the class body: a marked name is never in clash_names, so marking is idempotent" if ok else "clash mark / clash_names facts changed: clash_names is no longer the whole of dir(Namespace) computed after the class body (a key named like a filtered-out attribute - e.g. a private method - is stored unmarked and shadows it), or the mark could be part of a name", site="_namespace:clash_mark", construct="mark idempotent", function="_namespace:<module>")
     ok = "key in clash_names" in ast.unparse(am) and "clash_mark + key" in ast.unparse(am)
     ctx.oblige("C11.a", ok, am, "add_clash_mark prefixes exactly the names in clash_names" if ok else "add_clash_mark changed", fn=am)
     ok = "key[0] == clash_mark" in ast.unparse(dm) and "key[1:]" in ast.unparse(dm)
